@@ -68,7 +68,7 @@ theorem C01_main_strict (F : Nat → Bytes → Bytes) (s : Sys) (h : Hist) (inv 
         split at hk
         · simp [fail] at hk
         · unfold validate fail at hk
-          dsimp only at hk
+          try dsimp only at hk
           repeat' split at hk
           all_goals simp at hk
       | setup => simp only [chanStep] at hv; split at hv <;> simp [fail] at hv
